@@ -186,6 +186,9 @@ pub struct World {
     pub diverged: bool,
     /// Breaks ties between tasks due at the same (second-granular) time.
     pub tie_rng: crate::util::Rng,
+    /// Never use directed claims (fault-injection runs: the harness' own
+    /// storage move must not consume the injected fault).
+    pub no_directed: bool,
     _tokio: tokio::runtime::Runtime,
 }
 
@@ -212,6 +215,7 @@ impl World {
             started: Timestamp::now(),
             tasks_kv, task_log: vec![], step_log: vec![], script: None,
             diverged: false, tie_rng: crate::util::Rng::new(0x7a5c),
+            no_directed: false,
             _tokio: tokio,
         }
     }
@@ -568,7 +572,7 @@ impl World {
             Some(min_ts) => {
                 let ties: Vec<&(u128, String, String)> = due.iter()
                     .filter(|p| p.0 == min_ts).collect();
-                if ties.len() == 1 {
+                if ties.len() == 1 || self.no_directed {
                     let (key, value) = self.krill.tasks().pop()?;
                     Some(self.process_claimed(key, value))
                 } else {
